@@ -39,7 +39,7 @@ class MT:
 class Controller:
     def __init__(self, chooser, trace_funcs=(), yield_lines=(), max_steps=20000, frame_files=(), cover=None):
         self.chooser = chooser
-        self.trace_funcs = set(trace_funcs)      # {(filename, first line of the function)}
+        self.trace_funcs = trace_funcs           # container of (filename, first line of the function)
         self.yield_lines = set(yield_lines)      # {(filename, lineno)}
         self.frame_files = tuple(frame_files)    # files whose frames identify where a primitive was called from
         self.cover = cover                       # optional set collecting (filename, lineno) of executed lines
